@@ -219,6 +219,25 @@ class Gen:
                     self.Expr('n', env, depth + 1, allow_pcall))
         return Op('++', self.Expr('s', env, depth + 1, allow_pcall),
                   self.Expr('s', env, depth + 1, allow_pcall))
+      if c == 'if' and self.VarsOf(env, 'n') and r.random() < 0.45:
+        # an else-if chain over thresholds of one variable; branch values come
+        # from two constants so that non-adjacent branches share a value and
+        # later conditions overlap earlier ones (first match must win)
+        self.features.add('if_chain')
+        v = Var(r.choice(self.VarsOf(env, 'n')))
+        vals = [Lit(self.Const(t)), Lit(self.Const(t))]
+        if vals[0] == vals[1]:
+          vals[1] = Lit(N(7)) if t == 'n' else Lit(S('zz'))
+        ths = sorted(r.sample([0, 1, 2, 3], r.randint(2, 3)), reverse=True)
+        op = r.choice(['>', '>='])
+        e = vals[r.randrange(2)]
+        order = [0, 1, 0, 1] if r.random() < 0.5 else [1, 0, 1, 0]
+        flat = r.random() < 0.7
+        for k, th in enumerate(reversed(ths)):
+          if flat and e.get('k') == 'if':
+            e['chain'] = True
+          e = If(Op(op, v, Lit(N(th))), vals[order[k]], e)
+        return e
       if c == 'if':
         self.features.add('if')
         return If(self.Cond(env, depth + 1),
